@@ -992,6 +992,13 @@ fn views(ctx: &mut Ctx, body: &[u8], case: &str, writer_output: bool, emit: bool
             });
         }
     }
+    // ---- oracle: a record the reader ACCEPTED (read_record = validate) has accessors that answer, with a
+    // value or an error: the lazy views rely on the layout check of the reader
+    if let Ok(Ok(l)) = &lazy {
+        if let Some(i) = l.iter().position(|a| a == "P") {
+            ctx.fail("panic", format!("read_record accepted these {} bytes but the lazy accessor #{i} (in fmt_rec order) panicked", body.len()), case.into());
+        }
+    }
     // ---- oracle: every lazy accessor = the eager decode of the same bytes
     if let (Ok(e), Ok(Ok(l))) = (&eager, &lazy) {
         ctx.eval(Some(fnv(body)));
